@@ -704,6 +704,11 @@ def _pipe_shard(run, part, parts, ns):
         check_pipeline(run, c)
 
 
+def _grid_quota_shard(run, cases):
+    for c in cases:
+        check_quota(run, c)
+
+
 def run(run):
     full = run.tier == 'thorough'
     common.std_context(delegates=True)
@@ -719,4 +724,15 @@ def run(run):
     jobs = [('shape', (20000 if full else 1600) // k, i) for i in range(k)]
     jobs += [('quota', (20000 if full else 1600) // k, i) for i in range(k)]
     run.shards(_hyp_shard, jobs, watchdog=120)
+    # every template at fixed boundary arguments (the sampled tier above
+    # reaches each template only a few dozen times)
+    grid = []
+    for name in sorted(QUOTA_TEMPLATES):
+        for q in (1000, 20000):
+            for n, d, m in ((10 ** 6, 16, 2500), (10 ** 9, 17, 3000),
+                            (3, 2, 40), (2 ** 31, 18, 1200)):
+                grid.append({'kind': 'quota', 'template': name, 'q': q,
+                             's': 'ab', 'll': 3, 'n': n, 'd': d, 'm': m})
+    run.shards(_grid_quota_shard, [(grid[i::16],) for i in range(16)],
+               watchdog=120)
     run.extra['sweep_definitions'] = len(W.definitions())
